@@ -5,6 +5,7 @@ import (
 	"encoding/base64"
 	"encoding/json"
 	"fmt"
+	"math"
 	"math/rand"
 	"os"
 	"strings"
@@ -696,6 +697,10 @@ func c12PlaceCase(run *evid.Run, i int, j *Journal) {
 			continue
 		}
 		keys := src.Set.Keys()
+		if (i+r)%6 == 1 {
+			c12AbsurdClock(run, i, r, rng, x, l, src, j)
+			continue
+		}
 		// position classes
 		pos := []string{"head", "interior", "root", "ref-target"}[rng.Intn(4)]
 		victim := ""
@@ -897,6 +902,76 @@ func sizeClass(size, nv, nl int) string {
 		return "=index"
 	}
 	return ">index"
+}
+
+// c12AbsurdClock: a HEAD block that DECODES - a copy of the real head whose clock time is absurd (negative, the smallest,
+// the largest integer). It is the first entry an unlimited load sees. Nothing is demanded of what is loaded; the process
+// must survive and every loader must return.
+func c12AbsurdClock(run *evid.Run, i, r int, rng *rand.Rand, x *hx.Exec, l *ipfslog.IPFSLog, src *hx.Obs, j *Journal) {
+	victim := src.Heads[rng.Intn(len(src.Heads))]
+	vc, _ := cid.Decode(victim)
+	orig, ok := x.W.Store.Raw(vc)
+	if !ok {
+		return
+	}
+	var g any
+	if err := cbornode.DecodeInto(orig, &g); err != nil {
+		return
+	}
+	m, ok := g.(map[string]any)
+	if !ok {
+		return
+	}
+	clk, ok := m["clock"].(map[string]any)
+	if !ok {
+		return
+	}
+	name := []string{"-3", "-1", "min-int64", "max-int64", "max-int32+1"}[rng.Intn(5)]
+	clk["time"] = map[string]any{"-3": -3, "-1": -1, "min-int64": int64(math.MinInt64), "max-int64": uint64(math.MaxInt64), "max-int32+1": 1 << 31}[name]
+	var n *cbornode.Node
+	var err error
+	if p := safely(func() { n, err = cbornode.WrapObject(m, mh.SHA2_256, -1) }); p != nil || err != nil || n == nil {
+		return
+	}
+	cs := x.W.Store.Clone()
+	cs.SetReplace(vc, n.RawData())
+	mhc, merr := l.ToMultihash(x.W.Ctx)
+	if merr == nil {
+		if b, ok := x.W.Store.Raw(mhc); ok {
+			cs.PutRaw(mhc, b)
+		}
+	}
+	w2 := *x.W
+	w2.Store = cs
+	heads := l.Heads().Slice()
+	for _, loader := range hx.Loaders {
+		if loader == "hash" && len(src.Heads) != 1 {
+			continue
+		}
+		conc := []int{0, 1, 2}[rng.Intn(3)]
+		j.Log(map[string]any{"case": i, "phase": "absurd-clock-head", "clock_time": name, "loader": loader, "victim": victim, "block_hex": fmt.Sprintf("%x", n.RawData())[:minInt(2*len(n.RawData()), 600)]})
+		returned, dump := callHang(cs, time.Second, func() {
+			switch loader {
+			case "manifest":
+				_, _ = w2.LoadManifest(mhc, 0, &hx.LoadOpts{Concurrency: conc, NoExplicit: true})
+			case "json":
+				_, _ = w2.LoadJSON(l.ToJSONLog(), 0, &hx.LoadOpts{Concurrency: conc, NoExplicit: true})
+			case "entries":
+				_, _ = w2.LoadEntries(heads, 0, &hx.LoadOpts{Concurrency: conc, NoExplicit: true})
+			case "hash":
+				_, _ = w2.LoadHash(heads[0].GetHash(), 0, &hx.LoadOpts{Concurrency: conc, NoExplicit: true})
+			}
+		})
+		run.Count("loads_of_a_log_whose_head_has_an_absurd_clock_time", 1)
+		if !returned {
+			wt := histSample(x.H)
+			wt["goroutines"] = dump
+			run.Violate("C12/load-hung", det("scenario", "absurd-clock-head", "clock_time", name, "loader", loader), wt, "loading a log whose head block carries the clock time %s never returned (%s loader)", name, loader)
+			return
+		}
+	}
+	run.Eval(1)
+	run.NonTrivial("absurd-clock/" + name)
 }
 
 // c12ManyBadHeads: a published head list in which many hostile blocks are interleaved with the real heads,
